@@ -195,6 +195,27 @@ def run(F, R, ctx):
     R.inst("C04.c", "Synchronizer::enumerate_stacks / frame functions' captures", ("StackFrame", "function") in rd,
            "enumerate_stacks does not read StackFrame.function (captured variables of running closures)", es.loc())
 
+    # ---------------- c2: the value(s) being stored are roots of the collection they may trigger
+    R.rule("C04.f", "the value(s) about to be stored are roots: in Heap::{allocate,allocate_vector,allocate_vector_iter} "
+                    "and Heap::{value_collection,vector_collection} the value/values parameter flows (moves, borrows, clones) "
+                    "into the root arguments of the collection it may trigger")
+    sinks = r"\{impl Heap\}::(value_collection|vector_collection|mark_and_sweep_new)$"
+    for nm in ("allocate", "allocate_vector", "allocate_vector_iter", "value_collection", "vector_collection"):
+        fn = F.one(r"^steel::values::closed::\{impl Heap\}::%s$" % nm)
+        t = lib.tainted_locals(fn, ["_2"])
+        calls = [(i, b) for i, b in fn.calls() if re.search(sinks, b["callee"])]
+        if not calls:
+            R.inst("C04.f", "Heap::%s / triggers a collection" % nm, False,
+                   "Heap::%s no longer reaches a collection routine" % nm, fn.loc())
+            continue
+        for i, b in calls:
+            flows = any(x in t for a in b["args"][1:] for x in re.findall(r"_\d+", a))
+            R.inst("C04.f", "Heap::%s / value in flight passed as root to %s" % (nm, lib.split_path(b["callee"])[-1]), flows,
+                   "Heap::%s calls %s without passing (anything derived from) the value(s) it is about to store: they are "
+                   "held only by this native frame, so a collection triggered by this very allocation reclaims whatever "
+                   "only they reference" % (nm, lib.short_name(b["callee"])), fn.loc(b["line"]),
+                   sample={"args": b["args"]})
+
     # ---------------- d
     unmarkers = []
     for n, fn in F.fns.items():
